@@ -18,7 +18,8 @@ MOD = __name__
 
 RULE = ("C01's exhaustive token spaces and generated scripts/mutants, plus Hypothesis byte-level mutants of corpus and "
         "generated scripts (bit flips, inserts of NUL/invalid UTF-8/multi-byte/quote/backslash/CR/LF, deletes, splices, "
-        "truncations), identifiers colliding with every name in dir(sievelib.commands), str and bytes inputs, parse_file, "
+        "truncations), identifiers colliding with every name in dir(sievelib.commands), str and bytes inputs, fresh and long-lived Parser objects, "
+        "parse_file on files with byte order marks / other encodings / cut code units / padding, "
         "and size families for work scaling; oracle: no exception, lexer steps <= 2*len+16, result is True/False, "
         "error/error_pos/result shape. Non-trivial = input is not an accepted script (mutated, rejected or crashing); "
         "distinct by bytes.")
@@ -79,14 +80,15 @@ def judge(text, meta, col):
     _one(text, src, col)
 
 
-def _one(data, src, col, as_str=False):
+def _one(data, src, col, as_str=False, parser=None, prev=None):
+    """parser/prev: a long-lived Parser and the (data, as_str) it parsed last."""
     arg = data
     if as_str:
         try:
             arg = data.decode("utf-8")
         except UnicodeDecodeError:
             as_str = False
-    o = impl.parse_outcome(arg)
+    o = impl.parse_outcome(arg, parser=parser)
     nt = o.verdict is not True or src in ("bytes", "mutant", "collision", "badcomment")
     sample = None
     if nt and col.evals % 1499 == 0:
@@ -97,7 +99,11 @@ def _one(data, src, col, as_str=False):
     for b, d in check_shape(data, o):
         d = dict(d)
         d["input"] = data
-        col.fail(b, {"data": data, "as_str": as_str}, d)
+        case = {"data": data, "as_str": as_str}
+        if parser is not None and prev is not None:
+            case["prev"], case["prev_as_str"] = prev
+            b += "|reused-parser"
+        col.fail(b, case, d)
     return o
 
 
@@ -178,6 +184,8 @@ def bytes_worker(arg):
     sd, n, depth = arg
     col = core.Collector()
     corpus = corpus_scripts()
+    reused = impl.Parser()
+    last = [None]
 
     @pspace.hyp_settings(n)
     @hseed(sd)
@@ -190,7 +198,14 @@ def bytes_worker(arg):
             base = data.draw(S.layout(toks))
         for _ in range(4):
             m = data.draw(byte_mutant(base))
-            _one(m, "bytes", col, as_str=data.draw(st.booleans()))
+            as_str = data.draw(st.booleans())
+            if data.draw(st.booleans()):
+                # the same Parser object as for the worker's earlier inputs (README usage)
+                _one(m, "bytes", col, as_str=as_str, parser=reused, prev=last[0])
+                last[0] = (m, as_str)
+                col.classes["parser:reused"] += 1
+            else:
+                _one(m, "bytes", col, as_str=as_str)
 
     body()
     return col
@@ -226,6 +241,36 @@ def collision_worker(_):
 # parse_file
 
 
+BOMS = [b"\xef\xbb\xbf", b"\xff\xfe", b"\xfe\xff", b"\xff\xfe\x00\x00", b"\x00\x00\xfe\xff", b"+/v8", b"\xf7\x64\x4c"]
+
+
+@st.composite
+def file_form(draw, m):
+    """What a file on disk may look like besides plain UTF-8: byte order marks
+    (followed by the script as it is, or really transcoded, whole or cut in the
+    middle of a code unit), other encodings, trailing NUL padding, ^Z."""
+    k = draw(st.integers(0, 9))
+    if k <= 3:
+        return m
+    if k == 4:
+        return draw(st.sampled_from(BOMS)) + m
+    if k in (5, 6):
+        enc = draw(st.sampled_from(["utf-16", "utf-16-le", "utf-16-be", "utf-32", "latin-1", "cp1252"]))
+        try:
+            t = m.decode("utf-8").encode(enc)
+        except (UnicodeDecodeError, UnicodeEncodeError):
+            t = draw(st.sampled_from(BOMS)) + m
+        if k == 6 and t:
+            t = t[: draw(st.integers(0, len(t) - 1))]
+        return t
+    if k == 7:
+        bom = draw(st.sampled_from(BOMS[1:3]))
+        return bom + m + draw(st.sampled_from([b"", b"\x00", b"\xd8", b"\x00\xd8", b"\xd8\x00", b"\xdc\x00\x00"]))
+    if k == 8:
+        return m + draw(st.sampled_from([b"\x00" * 7, b"\x1a", b"\r", b"\xff"]))
+    return draw(st.sampled_from(BOMS)) + m[: draw(st.integers(0, len(m)))]
+
+
 def file_worker(arg):
     sd, n = arg
     col = core.Collector()
@@ -240,6 +285,7 @@ def file_worker(arg):
     def body(data):
         base = data.draw(st.sampled_from(corpus))
         m = data.draw(st.one_of(st.just(base), byte_mutant(base)))
+        m = data.draw(file_form(m))
         with open(path, "wb") as fp:
             fp.write(m)
         p = impl.Parser()
@@ -457,6 +503,18 @@ def replay(case):
             arg = data.decode("utf-8")
         except UnicodeDecodeError:
             pass
+    if "prev" in case:
+        # the finding was made with a Parser that had parsed case["prev"] just before
+        p = impl.Parser()
+        prev = case["prev"]
+        if case.get("prev_as_str"):
+            try:
+                prev = prev.decode("utf-8")
+            except UnicodeDecodeError:
+                pass
+        impl.parse_outcome(prev, parser=p)
+        o = impl.parse_outcome(arg, parser=p)
+        return [(b + "|reused-parser", d) for b, d in check_shape(data, o)]
     o = impl.parse_outcome(arg)
     return check_shape(data, o)
 
@@ -520,7 +578,7 @@ def main(tier, seed, t0):
     extra += [("atheris", (seed, runs, True)), ("atheris", (seed, runs, False))]
     col.merge(core.run_shards(extra_worker, extra, on_killed=on_killed))
     need = ["src:blind", "src:guided", "src:gen", "src:mutant", "src:bytes", "src:collision", "src:parse_file",
-            "src:scaling", "src:badcomment", "input:str", "verdict:False", "verdict:True"]
+            "src:scaling", "src:badcomment", "input:str", "verdict:False", "verdict:True", "parser:reused"]
     missing = [c for c in need if not col.classes.get(c)]
     if missing:
         raise core.HarnessError("generator classes empty: %s" % missing)
